@@ -110,7 +110,7 @@ def perc2okta_kernel(ctx, rule='C18-R3'):
     ex, s = summary(ctx, f)
     var = ('p', f.params[0])
     k = K.Kernel(var, rule)
-    raises = [e for e in s.events if e.kind == 'raise' and not e.ctx]
+    raises = [e for e in s.events if e.kind == 'raise']        # wherever written (a validation helper, ...)
     ctx.check(len(raises) == 1, rule, f.qname, f.node.name, f.loc(),
               f'{len(raises)} raise statements instead of the single range refusal', instance='one refusal')
     if raises:
@@ -123,11 +123,17 @@ def perc2okta_kernel(ctx, rule='C18-R3'):
                   'values are refused on ' + ', '.join(K.show_piece(pp) for pp, b in parts if b) +
                   f' with {cls}; expected AmpycloudError exactly outside [0, 100]',
                   instance='refuses exactly the values outside [0, 100]')
-        first_other = min((e.seq for e in s.events if e.kind in ('store', 'return') and not e.ctx), default=1 << 60)
+        first_other = min((e.seq for e in s.events if e.kind == 'store' or (e.kind == 'return' and not e.ctx)), default=1 << 60)
         ctx.check(r.seq < first_other, rule, f.qname, r.node, r.loc(), 'the range check is not the first thing done',
                   instance='range check first')
     try:
         parts = k.ev(s.ret, (F(0), True, F(100), True))
+    except K.MaskMismatch as err:
+        ctx.violation(rule, f.qname, f.node.name, f.loc(),
+                      f'{err.why}: a masked assignment reads its values under another condition than the one it writes them '
+                      'under - the oktas of some percentages are computed from other elements (or the shapes disagree)',
+                      instance='perc2okta: masked assignments aligned')
+        return
     except K.NestedRounding as err:
         ctx.violation(rule, f.qname, f.node.name, f.loc(),
                       f'the percentage goes through two roundings ({err.why}): bin edges move',
